@@ -189,8 +189,10 @@ def execute(plan, ctx):
 
     live = []          # backend Sequence objects
     depth = []
+    recorded = {}
     for s in plan["roots"]:
         live.append(SequenceParameters(s).SeqObj)
+        recorded[len(live) - 1] = s.upper()
         depth.append(0)
 
     def wrap(o):
@@ -272,12 +274,33 @@ def execute(plan, ctx):
                 ctx.probe("returns_self")
                 return
         live.append(child)
+        recorded[len(live) - 1] = wrap(child).get_sequence()
         depth.append(depth[parent_i] + 1)
         if depth[-1] >= 5:
             ctx.probe("chain_depth_ge_5")
 
+    def sweep(why):
+        """every live object still equals a fresh object built from the string it had when it was created
+        (catches state shared between parent and child that a later move disturbs)"""
+        for j, o in enumerate(live):
+            s0 = recorded.setdefault(j, wrap(o).get_sequence())
+            w = wrap(o)
+            if w.get_sequence() != s0:
+                raise Violation("parent_altered", "later_altered:seq", "live object %d changed from %r to %r (%s)" % (j, s0, w.get_sequence(), why))
+            f = fresh_of(s0)
+            a = [float(x) for x in w.get_linear_NCPR(1)[1]]
+            b = [float(x) for x in f.get_linear_NCPR(1)[1]]
+            if a != b or len(w) != len(f):
+                raise Violation("bookkeeping_mismatch", "later_altered:charge", "live object %d (%r): per-residue charges %r no longer match a fresh object's %r (%s)" % (j, s0, a, b, why))
+            d = peek_dmax(o)
+            if d is not None and d != -1 and not feq(d, f.get_deltaMax(), 1e-12):
+                raise Violation("bookkeeping_mismatch", "later_altered:dmax", "live object %d (%r): cached delta-max %r, fresh object computes %r (%s)" % (j, s0, d, f.get_deltaMax(), why))
+        ctx.count("sweeps")
+
     last_seed = [None]
     for n, op in enumerate(plan["ops"]):
+        if n and n % 4 == 0:
+            sweep("before op %d" % n)
         i = op["o"] % len(live) if op["o"] >= 0 else len(live) - 1
         parent = live[i]
         k = op["k"]
@@ -414,6 +437,7 @@ def execute(plan, ctx):
         check_child(k, before, child, frozen, where, bool(op.get("panel")), key_site)
         check_parent(parent, before, where, key_site)
         add(child, i)
+    sweep("end of chain")
     ctx.sim_seconds += clock.covered()
     ctx.count("ops", len(plan["ops"]))
     ctx.count("clock_reads", clock.reads)
